@@ -1,7 +1,7 @@
 # Per-property configuration of bin/vcheck. One entry per claimed property.
 CHECKS = {}
 NOT_APPLICABLE = {}   # property id -> reason (only for properties that are not claimed)
-HOOK_COMMITS = ["591d0aa", "cd8c611", "81459e8", "b3ade5a", "5b8c4ec", "9b840f3"]     # /repo commits that add build-tag-guarded hooks
+HOOK_COMMITS = ["591d0aa", "cd8c611", "81459e8", "b3ade5a", "5b8c4ec", "9b840f3", "69c0b79"]     # /repo commits that add build-tag-guarded hooks
 MANIFEST_NOTES = ("Every check is `bin/vcheck <id> quick|thorough`; VERIF_SEED selects the seeded case lists. "
                   "Verdicts are three-valued (VIOLATION / held / INCONCLUSIVE); known findings are in known_findings.json.")
 
@@ -214,7 +214,8 @@ CHECKS["C20"] = {
 }
 
 CHECKS["C14"] = {
-    "pkg": "./c14", "run": "^TestC14$", "level": "fault_enumeration",
+    "pkg": "./c14", "run": "^TestC14", "level": "fault_enumeration",
+    "aux": [{"pkg": "github.com/marekgalovic/anndb/cmd/anndb", "name": "anndb", "env": "VERIF_ANNDB_BIN", "tags": "verif"}],
     "mem_gb": {"quick": 0, "thorough": 0},
     "technique": "runtime monitor on an in-process cluster of real servers: catalogue equality (id, dimension, metric, partition ids in order, replica assignment) of every live node vs the acknowledged model after a logical marker, across create/delete sequences, forced catalogue-log compaction, restarts, and a node catching up by snapshot; plus a replica-set family: agreement of the replica assignment across members, and of what each member lists with what it routes by, after node 3 is added to under-replicated partitions and removed again, across compaction, restart and catch-up by snapshot",
     "level_text": "Monitor on real clusters of 1..3 nodes with real start-up wiring: seeded sequences of create / delete / compaction / restart / node-down-while-the-catalogue-changes-and-the-others-compact; after each restart or catch-up and at the end (and again after restarting every node) each live node's List must equal the acknowledged catalogue exactly, deleted datasets must not be listed and no raft group of their partitions may still run on any node.",
